@@ -45,12 +45,12 @@ type ExecResp struct {
 var ErrExecDied = errors.New("executor process died")
 
 type Exec struct {
-	cmd    *exec.Cmd
-	in     io.WriteCloser
-	out    *bufio.Reader
-	mu     sync.Mutex
-	Events []ExecEvent // everything drained so far
-	stderr *os.File
+	cmd        *exec.Cmd
+	in         io.WriteCloser
+	out        *bufio.Reader
+	mu         sync.Mutex
+	Events     []ExecEvent // everything drained so far
+	stderr     *os.File
 	StderrPath string
 }
 
